@@ -259,3 +259,258 @@ package vm
 //@   requires stack != nil && len(stack.data) >= 2
 //@   ensures [ok] result1 == nil && result0 <= 30 * (10 + 32*50)
 //@   modifies nothing
+
+// ---- GENERATED by /verif/tools/gen_vm_opcode_contracts.py: begin (arithmetic, comparison, bitwise, shifts) ----
+// [top] is the Yellow Paper value of the opcode; s0 is the top of the stack in the pre-state.
+
+//@ func opAdd
+//@   property C10 C11 C12
+//@   requires callContext != nil && callContext.stack != nil && len(callContext.stack.data) >= 2
+//@   ensures [len]  len(callContext.stack.data) == old(len(callContext.stack.data)) - 1
+//@   ensures [top]  callContext.stack.data[len(callContext.stack.data)-1] == old(callContext.stack.data[len(callContext.stack.data)-1]) + old(callContext.stack.data[len(callContext.stack.data)-2])
+//@   ensures [rest] forall i int :: 0 <= i && i < len(callContext.stack.data)-1 ==> callContext.stack.data[i] == old(callContext.stack.data[i])
+//@   ensures [ret]  result1 == nil && len(result0) == 0
+//@   ensures [pc]   *pc == old(*pc)
+//@   modifies callContext.stack.data, elems(callContext.stack.data)
+
+//@ func opSub
+//@   property C10 C11 C12
+//@   requires callContext != nil && callContext.stack != nil && len(callContext.stack.data) >= 2
+//@   ensures [len]  len(callContext.stack.data) == old(len(callContext.stack.data)) - 1
+//@   ensures [top]  callContext.stack.data[len(callContext.stack.data)-1] == old(callContext.stack.data[len(callContext.stack.data)-1]) - old(callContext.stack.data[len(callContext.stack.data)-2])
+//@   ensures [rest] forall i int :: 0 <= i && i < len(callContext.stack.data)-1 ==> callContext.stack.data[i] == old(callContext.stack.data[i])
+//@   ensures [ret]  result1 == nil && len(result0) == 0
+//@   ensures [pc]   *pc == old(*pc)
+//@   modifies callContext.stack.data, elems(callContext.stack.data)
+
+//@ func opMul
+//@   property C10 C11 C12
+//@   requires callContext != nil && callContext.stack != nil && len(callContext.stack.data) >= 2
+//@   ensures [len]  len(callContext.stack.data) == old(len(callContext.stack.data)) - 1
+//@   ensures [top]  callContext.stack.data[len(callContext.stack.data)-1] == old(callContext.stack.data[len(callContext.stack.data)-1]) * old(callContext.stack.data[len(callContext.stack.data)-2])
+//@   ensures [rest] forall i int :: 0 <= i && i < len(callContext.stack.data)-1 ==> callContext.stack.data[i] == old(callContext.stack.data[i])
+//@   ensures [ret]  result1 == nil && len(result0) == 0
+//@   ensures [pc]   *pc == old(*pc)
+//@   modifies callContext.stack.data, elems(callContext.stack.data)
+
+//@ func opDiv
+//@   property C10 C11 C12
+//@   requires callContext != nil && callContext.stack != nil && len(callContext.stack.data) >= 2
+//@   ensures [len]  len(callContext.stack.data) == old(len(callContext.stack.data)) - 1
+//@   ensures [top]  callContext.stack.data[len(callContext.stack.data)-1] == ite(old(callContext.stack.data[len(callContext.stack.data)-2]) == 0, u256(0), old(callContext.stack.data[len(callContext.stack.data)-1]) / old(callContext.stack.data[len(callContext.stack.data)-2]))
+//@   ensures [rest] forall i int :: 0 <= i && i < len(callContext.stack.data)-1 ==> callContext.stack.data[i] == old(callContext.stack.data[i])
+//@   ensures [ret]  result1 == nil && len(result0) == 0
+//@   ensures [pc]   *pc == old(*pc)
+//@   modifies callContext.stack.data, elems(callContext.stack.data)
+
+//@ func opSdiv
+//@   property C10 C11 C12
+//@   requires callContext != nil && callContext.stack != nil && len(callContext.stack.data) >= 2
+//@   ensures [len]  len(callContext.stack.data) == old(len(callContext.stack.data)) - 1
+//@   ensures [top]  callContext.stack.data[len(callContext.stack.data)-1] == ite(old(callContext.stack.data[len(callContext.stack.data)-2]) == 0, u256(0), signed(old(callContext.stack.data[len(callContext.stack.data)-1])) / signed(old(callContext.stack.data[len(callContext.stack.data)-2])))
+//@   ensures [rest] forall i int :: 0 <= i && i < len(callContext.stack.data)-1 ==> callContext.stack.data[i] == old(callContext.stack.data[i])
+//@   ensures [ret]  result1 == nil && len(result0) == 0
+//@   ensures [pc]   *pc == old(*pc)
+//@   modifies callContext.stack.data, elems(callContext.stack.data)
+
+//@ func opMod
+//@   property C10 C11 C12
+//@   requires callContext != nil && callContext.stack != nil && len(callContext.stack.data) >= 2
+//@   ensures [len]  len(callContext.stack.data) == old(len(callContext.stack.data)) - 1
+//@   ensures [top]  callContext.stack.data[len(callContext.stack.data)-1] == ite(old(callContext.stack.data[len(callContext.stack.data)-2]) == 0, u256(0), old(callContext.stack.data[len(callContext.stack.data)-1]) % old(callContext.stack.data[len(callContext.stack.data)-2]))
+//@   ensures [rest] forall i int :: 0 <= i && i < len(callContext.stack.data)-1 ==> callContext.stack.data[i] == old(callContext.stack.data[i])
+//@   ensures [ret]  result1 == nil && len(result0) == 0
+//@   ensures [pc]   *pc == old(*pc)
+//@   modifies callContext.stack.data, elems(callContext.stack.data)
+
+//@ func opSmod
+//@   property C10 C11 C12
+//@   requires callContext != nil && callContext.stack != nil && len(callContext.stack.data) >= 2
+//@   ensures [len]  len(callContext.stack.data) == old(len(callContext.stack.data)) - 1
+//@   ensures [top]  callContext.stack.data[len(callContext.stack.data)-1] == ite(old(callContext.stack.data[len(callContext.stack.data)-2]) == 0, u256(0), signed(old(callContext.stack.data[len(callContext.stack.data)-1])) % signed(old(callContext.stack.data[len(callContext.stack.data)-2])))
+//@   ensures [rest] forall i int :: 0 <= i && i < len(callContext.stack.data)-1 ==> callContext.stack.data[i] == old(callContext.stack.data[i])
+//@   ensures [ret]  result1 == nil && len(result0) == 0
+//@   ensures [pc]   *pc == old(*pc)
+//@   modifies callContext.stack.data, elems(callContext.stack.data)
+
+//@ func opExp
+//@   property C10 C11 C12
+//@   requires callContext != nil && callContext.stack != nil && len(callContext.stack.data) >= 2
+//@   ensures [len]  len(callContext.stack.data) == old(len(callContext.stack.data)) - 1
+//@   ensures [top]  callContext.stack.data[len(callContext.stack.data)-1] == @exp256(old(callContext.stack.data[len(callContext.stack.data)-1]), old(callContext.stack.data[len(callContext.stack.data)-2]))
+//@   ensures [rest] forall i int :: 0 <= i && i < len(callContext.stack.data)-1 ==> callContext.stack.data[i] == old(callContext.stack.data[i])
+//@   ensures [ret]  result1 == nil && len(result0) == 0
+//@   ensures [pc]   *pc == old(*pc)
+//@   modifies callContext.stack.data, elems(callContext.stack.data)
+
+//@ func opSignExtend
+//@   property C10 C11 C12
+//@   requires callContext != nil && callContext.stack != nil && len(callContext.stack.data) >= 2
+//@   ensures [len]  len(callContext.stack.data) == old(len(callContext.stack.data)) - 1
+//@   ensures [top]  callContext.stack.data[len(callContext.stack.data)-1] == ite(old(callContext.stack.data[len(callContext.stack.data)-1]) > 30, old(callContext.stack.data[len(callContext.stack.data)-2]), ite((old(callContext.stack.data[len(callContext.stack.data)-2]) >> (8*old(callContext.stack.data[len(callContext.stack.data)-1]) + 7)) & 1 == 1, old(callContext.stack.data[len(callContext.stack.data)-2]) | ^((u256(1) << (8*old(callContext.stack.data[len(callContext.stack.data)-1]) + 7)) - 1), old(callContext.stack.data[len(callContext.stack.data)-2]) & ((u256(1) << (8*old(callContext.stack.data[len(callContext.stack.data)-1]) + 7)) - 1)))
+//@   ensures [rest] forall i int :: 0 <= i && i < len(callContext.stack.data)-1 ==> callContext.stack.data[i] == old(callContext.stack.data[i])
+//@   ensures [ret]  result1 == nil && len(result0) == 0
+//@   ensures [pc]   *pc == old(*pc)
+//@   modifies callContext.stack.data, elems(callContext.stack.data)
+
+//@ func opNot
+//@   property C10 C11 C12
+//@   requires callContext != nil && callContext.stack != nil && len(callContext.stack.data) >= 1
+//@   ensures [len]  len(callContext.stack.data) == old(len(callContext.stack.data)) - 0
+//@   ensures [top]  callContext.stack.data[len(callContext.stack.data)-1] == ^old(callContext.stack.data[len(callContext.stack.data)-1])
+//@   ensures [rest] forall i int :: 0 <= i && i < len(callContext.stack.data)-1 ==> callContext.stack.data[i] == old(callContext.stack.data[i])
+//@   ensures [ret]  result1 == nil && len(result0) == 0
+//@   ensures [pc]   *pc == old(*pc)
+//@   modifies callContext.stack.data, elems(callContext.stack.data)
+
+//@ func opLt
+//@   property C10 C11 C12
+//@   requires callContext != nil && callContext.stack != nil && len(callContext.stack.data) >= 2
+//@   ensures [len]  len(callContext.stack.data) == old(len(callContext.stack.data)) - 1
+//@   ensures [top]  callContext.stack.data[len(callContext.stack.data)-1] == ite(old(callContext.stack.data[len(callContext.stack.data)-1]) < old(callContext.stack.data[len(callContext.stack.data)-2]), u256(1), u256(0))
+//@   ensures [rest] forall i int :: 0 <= i && i < len(callContext.stack.data)-1 ==> callContext.stack.data[i] == old(callContext.stack.data[i])
+//@   ensures [ret]  result1 == nil && len(result0) == 0
+//@   ensures [pc]   *pc == old(*pc)
+//@   modifies callContext.stack.data, elems(callContext.stack.data)
+
+//@ func opGt
+//@   property C10 C11 C12
+//@   requires callContext != nil && callContext.stack != nil && len(callContext.stack.data) >= 2
+//@   ensures [len]  len(callContext.stack.data) == old(len(callContext.stack.data)) - 1
+//@   ensures [top]  callContext.stack.data[len(callContext.stack.data)-1] == ite(old(callContext.stack.data[len(callContext.stack.data)-1]) > old(callContext.stack.data[len(callContext.stack.data)-2]), u256(1), u256(0))
+//@   ensures [rest] forall i int :: 0 <= i && i < len(callContext.stack.data)-1 ==> callContext.stack.data[i] == old(callContext.stack.data[i])
+//@   ensures [ret]  result1 == nil && len(result0) == 0
+//@   ensures [pc]   *pc == old(*pc)
+//@   modifies callContext.stack.data, elems(callContext.stack.data)
+
+//@ func opSlt
+//@   property C10 C11 C12
+//@   requires callContext != nil && callContext.stack != nil && len(callContext.stack.data) >= 2
+//@   ensures [len]  len(callContext.stack.data) == old(len(callContext.stack.data)) - 1
+//@   ensures [top]  callContext.stack.data[len(callContext.stack.data)-1] == ite(signed(old(callContext.stack.data[len(callContext.stack.data)-1])) < signed(old(callContext.stack.data[len(callContext.stack.data)-2])), u256(1), u256(0))
+//@   ensures [rest] forall i int :: 0 <= i && i < len(callContext.stack.data)-1 ==> callContext.stack.data[i] == old(callContext.stack.data[i])
+//@   ensures [ret]  result1 == nil && len(result0) == 0
+//@   ensures [pc]   *pc == old(*pc)
+//@   modifies callContext.stack.data, elems(callContext.stack.data)
+
+//@ func opSgt
+//@   property C10 C11 C12
+//@   requires callContext != nil && callContext.stack != nil && len(callContext.stack.data) >= 2
+//@   ensures [len]  len(callContext.stack.data) == old(len(callContext.stack.data)) - 1
+//@   ensures [top]  callContext.stack.data[len(callContext.stack.data)-1] == ite(signed(old(callContext.stack.data[len(callContext.stack.data)-1])) > signed(old(callContext.stack.data[len(callContext.stack.data)-2])), u256(1), u256(0))
+//@   ensures [rest] forall i int :: 0 <= i && i < len(callContext.stack.data)-1 ==> callContext.stack.data[i] == old(callContext.stack.data[i])
+//@   ensures [ret]  result1 == nil && len(result0) == 0
+//@   ensures [pc]   *pc == old(*pc)
+//@   modifies callContext.stack.data, elems(callContext.stack.data)
+
+//@ func opEq
+//@   property C10 C11 C12
+//@   requires callContext != nil && callContext.stack != nil && len(callContext.stack.data) >= 2
+//@   ensures [len]  len(callContext.stack.data) == old(len(callContext.stack.data)) - 1
+//@   ensures [top]  callContext.stack.data[len(callContext.stack.data)-1] == ite(old(callContext.stack.data[len(callContext.stack.data)-1]) == old(callContext.stack.data[len(callContext.stack.data)-2]), u256(1), u256(0))
+//@   ensures [rest] forall i int :: 0 <= i && i < len(callContext.stack.data)-1 ==> callContext.stack.data[i] == old(callContext.stack.data[i])
+//@   ensures [ret]  result1 == nil && len(result0) == 0
+//@   ensures [pc]   *pc == old(*pc)
+//@   modifies callContext.stack.data, elems(callContext.stack.data)
+
+//@ func opIszero
+//@   property C10 C11 C12
+//@   requires callContext != nil && callContext.stack != nil && len(callContext.stack.data) >= 1
+//@   ensures [len]  len(callContext.stack.data) == old(len(callContext.stack.data)) - 0
+//@   ensures [top]  callContext.stack.data[len(callContext.stack.data)-1] == ite(old(callContext.stack.data[len(callContext.stack.data)-1]) == 0, u256(1), u256(0))
+//@   ensures [rest] forall i int :: 0 <= i && i < len(callContext.stack.data)-1 ==> callContext.stack.data[i] == old(callContext.stack.data[i])
+//@   ensures [ret]  result1 == nil && len(result0) == 0
+//@   ensures [pc]   *pc == old(*pc)
+//@   modifies callContext.stack.data, elems(callContext.stack.data)
+
+//@ func opAnd
+//@   property C10 C11 C12
+//@   requires callContext != nil && callContext.stack != nil && len(callContext.stack.data) >= 2
+//@   ensures [len]  len(callContext.stack.data) == old(len(callContext.stack.data)) - 1
+//@   ensures [top]  callContext.stack.data[len(callContext.stack.data)-1] == old(callContext.stack.data[len(callContext.stack.data)-1]) & old(callContext.stack.data[len(callContext.stack.data)-2])
+//@   ensures [rest] forall i int :: 0 <= i && i < len(callContext.stack.data)-1 ==> callContext.stack.data[i] == old(callContext.stack.data[i])
+//@   ensures [ret]  result1 == nil && len(result0) == 0
+//@   ensures [pc]   *pc == old(*pc)
+//@   modifies callContext.stack.data, elems(callContext.stack.data)
+
+//@ func opOr
+//@   property C10 C11 C12
+//@   requires callContext != nil && callContext.stack != nil && len(callContext.stack.data) >= 2
+//@   ensures [len]  len(callContext.stack.data) == old(len(callContext.stack.data)) - 1
+//@   ensures [top]  callContext.stack.data[len(callContext.stack.data)-1] == old(callContext.stack.data[len(callContext.stack.data)-1]) | old(callContext.stack.data[len(callContext.stack.data)-2])
+//@   ensures [rest] forall i int :: 0 <= i && i < len(callContext.stack.data)-1 ==> callContext.stack.data[i] == old(callContext.stack.data[i])
+//@   ensures [ret]  result1 == nil && len(result0) == 0
+//@   ensures [pc]   *pc == old(*pc)
+//@   modifies callContext.stack.data, elems(callContext.stack.data)
+
+//@ func opXor
+//@   property C10 C11 C12
+//@   requires callContext != nil && callContext.stack != nil && len(callContext.stack.data) >= 2
+//@   ensures [len]  len(callContext.stack.data) == old(len(callContext.stack.data)) - 1
+//@   ensures [top]  callContext.stack.data[len(callContext.stack.data)-1] == old(callContext.stack.data[len(callContext.stack.data)-1]) ^ old(callContext.stack.data[len(callContext.stack.data)-2])
+//@   ensures [rest] forall i int :: 0 <= i && i < len(callContext.stack.data)-1 ==> callContext.stack.data[i] == old(callContext.stack.data[i])
+//@   ensures [ret]  result1 == nil && len(result0) == 0
+//@   ensures [pc]   *pc == old(*pc)
+//@   modifies callContext.stack.data, elems(callContext.stack.data)
+
+//@ func opByte
+//@   property C10 C11 C12
+//@   requires callContext != nil && callContext.stack != nil && len(callContext.stack.data) >= 2
+//@   ensures [len]  len(callContext.stack.data) == old(len(callContext.stack.data)) - 1
+//@   ensures [top]  callContext.stack.data[len(callContext.stack.data)-1] == ite(old(callContext.stack.data[len(callContext.stack.data)-1]) < 32, (old(callContext.stack.data[len(callContext.stack.data)-2]) >> (248 - 8*old(callContext.stack.data[len(callContext.stack.data)-1]))) & 255, u256(0))
+//@   ensures [rest] forall i int :: 0 <= i && i < len(callContext.stack.data)-1 ==> callContext.stack.data[i] == old(callContext.stack.data[i])
+//@   ensures [ret]  result1 == nil && len(result0) == 0
+//@   ensures [pc]   *pc == old(*pc)
+//@   modifies callContext.stack.data, elems(callContext.stack.data)
+
+//@ func opAddmod
+//@   property C10 C11 C12
+//@   requires callContext != nil && callContext.stack != nil && len(callContext.stack.data) >= 3
+//@   ensures [len]  len(callContext.stack.data) == old(len(callContext.stack.data)) - 2
+//@   ensures [top]  callContext.stack.data[len(callContext.stack.data)-1] == ite(old(callContext.stack.data[len(callContext.stack.data)-3]) == 0, u256(0), extract(255, 0, (zext(257, old(callContext.stack.data[len(callContext.stack.data)-1])) + zext(257, old(callContext.stack.data[len(callContext.stack.data)-2]))) % zext(257, old(callContext.stack.data[len(callContext.stack.data)-3]))))
+//@   ensures [rest] forall i int :: 0 <= i && i < len(callContext.stack.data)-1 ==> callContext.stack.data[i] == old(callContext.stack.data[i])
+//@   ensures [ret]  result1 == nil && len(result0) == 0
+//@   ensures [pc]   *pc == old(*pc)
+//@   modifies callContext.stack.data, elems(callContext.stack.data)
+
+//@ func opMulmod
+//@   property C10 C11 C12
+//@   requires callContext != nil && callContext.stack != nil && len(callContext.stack.data) >= 3
+//@   ensures [len]  len(callContext.stack.data) == old(len(callContext.stack.data)) - 2
+//@   ensures [top]  callContext.stack.data[len(callContext.stack.data)-1] == ite(old(callContext.stack.data[len(callContext.stack.data)-3]) == 0, u256(0), extract(255, 0, (zext(512, old(callContext.stack.data[len(callContext.stack.data)-1])) * zext(512, old(callContext.stack.data[len(callContext.stack.data)-2]))) % zext(512, old(callContext.stack.data[len(callContext.stack.data)-3]))))
+//@   ensures [rest] forall i int :: 0 <= i && i < len(callContext.stack.data)-1 ==> callContext.stack.data[i] == old(callContext.stack.data[i])
+//@   ensures [ret]  result1 == nil && len(result0) == 0
+//@   ensures [pc]   *pc == old(*pc)
+//@   modifies callContext.stack.data, elems(callContext.stack.data)
+
+//@ func opSHL
+//@   property C10 C11 C12
+//@   requires callContext != nil && callContext.stack != nil && len(callContext.stack.data) >= 2
+//@   ensures [len]  len(callContext.stack.data) == old(len(callContext.stack.data)) - 1
+//@   ensures [top]  callContext.stack.data[len(callContext.stack.data)-1] == ite(old(callContext.stack.data[len(callContext.stack.data)-1]) < 256, old(callContext.stack.data[len(callContext.stack.data)-2]) << old(callContext.stack.data[len(callContext.stack.data)-1]), u256(0))
+//@   ensures [rest] forall i int :: 0 <= i && i < len(callContext.stack.data)-1 ==> callContext.stack.data[i] == old(callContext.stack.data[i])
+//@   ensures [ret]  result1 == nil && len(result0) == 0
+//@   ensures [pc]   *pc == old(*pc)
+//@   modifies callContext.stack.data, elems(callContext.stack.data)
+
+//@ func opSHR
+//@   property C10 C11 C12
+//@   requires callContext != nil && callContext.stack != nil && len(callContext.stack.data) >= 2
+//@   ensures [len]  len(callContext.stack.data) == old(len(callContext.stack.data)) - 1
+//@   ensures [top]  callContext.stack.data[len(callContext.stack.data)-1] == ite(old(callContext.stack.data[len(callContext.stack.data)-1]) < 256, old(callContext.stack.data[len(callContext.stack.data)-2]) >> old(callContext.stack.data[len(callContext.stack.data)-1]), u256(0))
+//@   ensures [rest] forall i int :: 0 <= i && i < len(callContext.stack.data)-1 ==> callContext.stack.data[i] == old(callContext.stack.data[i])
+//@   ensures [ret]  result1 == nil && len(result0) == 0
+//@   ensures [pc]   *pc == old(*pc)
+//@   modifies callContext.stack.data, elems(callContext.stack.data)
+
+//@ func opSAR
+//@   property C10 C11 C12
+//@   requires callContext != nil && callContext.stack != nil && len(callContext.stack.data) >= 2
+//@   ensures [len]  len(callContext.stack.data) == old(len(callContext.stack.data)) - 1
+//@   ensures [top]  callContext.stack.data[len(callContext.stack.data)-1] == ite(old(callContext.stack.data[len(callContext.stack.data)-1]) < 256, signed(old(callContext.stack.data[len(callContext.stack.data)-2])) >> old(callContext.stack.data[len(callContext.stack.data)-1]), ite(signed(old(callContext.stack.data[len(callContext.stack.data)-2])) < 0, ^u256(0), u256(0)))
+//@   ensures [rest] forall i int :: 0 <= i && i < len(callContext.stack.data)-1 ==> callContext.stack.data[i] == old(callContext.stack.data[i])
+//@   ensures [ret]  result1 == nil && len(result0) == 0
+//@   ensures [pc]   *pc == old(*pc)
+//@   modifies callContext.stack.data, elems(callContext.stack.data)
+
+// ---- GENERATED: end ----
